@@ -62,6 +62,9 @@ var views = []struct {
 	{"rotate 30 about (4,4)", canvas.Identity.RotateAbout(30, 4, 4)},
 	{"scale (1.2,-1) then up", canvas.Identity.Translate(0, 9).Scale(1.2, -1)},
 	{"shear", canvas.Identity.Shear(0.3, 0.1)},
+	// columns of equal length that are not orthogonal: no similarity although |m e1| = |m e2|
+	{"shear (0.4,0.4)", canvas.Identity.Translate(-1, -1).Shear(0.4, 0.4)},
+	{"scale (1.3,0.7) along the diagonals", canvas.Identity.RotateAbout(45, 5, 4).ScaleAbout(1.3, 0.7, 5, 4).RotateAbout(-45, 5, 4)},
 }
 
 var resolutions = []float64{1, 2.5, 8}
